@@ -796,7 +796,7 @@ def gen_threads(seed, params=None):
     other, issued concurrently; history = builds (threaded), mutations of
     static inputs, unchanged rebuild, clean."""
     P = dict(p_same_key=0.0, p_fail=0.25, p_in_sub=0.3, p_crash_last=0.0,
-             p_tamper=0.3, p_seq_first=0.25, n_threads=(2, 3))
+             p_tamper=0.3, p_seq_first=0.25, n_threads=(2, 4), p_in_file=0.2)
     if params:
         P.update(params)
     rng = random.Random(seed)
@@ -866,9 +866,15 @@ def gen_threads(seed, params=None):
         spawn = ['spawn', [list(b) for _ in range(nt)], 'sym']
     post = [['probe', sorted(set(
         [''] + outputs + [a for o in outputs for a in ancestors(o)]))]]
-    if rng.random() < P['p_in_sub']:
+    r = rng.random()
+    if r < P['p_in_sub']:
         funcs['ST'] = {'kind': 'sub', 'name': 'nST', 'variants': [[spawn]]}
         root = [['sb', 'ST', [], {}, True]] + post
+    elif r < P['p_in_sub'] + P['p_in_file']:
+        # the threads use the builder of a build_file function
+        funcs['FT'] = {'kind': 'file', 'name': 'nFT', 'variants': [
+            [spawn, ['w', 'once']]]}
+        root = [['bf', 'top', 'FT', [], {}, 'METADATA', True]] + post
     else:
         root = [spawn] + post
     roots = [root]
